@@ -379,4 +379,49 @@ theorem changeReqs_length_nolimits (cfg : Config α) (len : Nat) (t : Tape α) (
     (changeReqs cfg len t).length = len * (cfg.dim + 2) := by
   simp [changeReqs, numberReqs, newLen, plan, hl, allReqs_length]
 
+/-! ### `__init__` -/
+
+theorem popMany_length (pop : Tape α → Option (α × Tape α)) (n : Nat) (t : Tape α) (xs : List α) (t' : Tape α)
+    (h : popMany pop n t = some (xs, t')) : xs.length = n := by
+  induction n generalizing t xs t' with
+  | zero => simp only [popMany, Option.some.injEq, Prod.mk.injEq] at h; rw [← h.1]; rfl
+  | succ m ih =>
+    simp only [popMany] at h
+    split at h
+    · simp at h
+    · split at h
+      · simp at h
+      · next ys t2 hy =>
+        simp only [Option.some.injEq, Prod.mk.injEq] at h
+        rw [← h.1, List.length_cons, ih _ _ _ hy]
+
+theorem popGroups_spec (pop : Tape α → Option (α × Tape α)) (dim n : Nat) (t : Tape α) (gs : List (List α))
+    (t' : Tape α) (h : popGroups pop dim n t = some (gs, t')) : gs.length = n ∧ ∀ g ∈ gs, g.length = dim := by
+  induction n generalizing t gs t' with
+  | zero => simp only [popGroups, Option.some.injEq, Prod.mk.injEq] at h; rw [← h.1]; simp
+  | succ m ih =>
+    simp only [popGroups] at h
+    split at h
+    · simp at h
+    · next g t1 hg =>
+      split at h
+      · simp at h
+      · next gs2 t2 h2 =>
+        simp only [Option.some.injEq, Prod.mk.injEq] at h
+        obtain ⟨a, b⟩ := ih _ _ _ h2
+        rw [← h.1]
+        refine ⟨by simp [a], ?_⟩
+        intro g' hg'
+        simp only [List.mem_cons] at hg'
+        rcases hg' with rfl | hg'
+        · exact popMany_length _ _ _ _ _ hg
+        · exact b g' hg'
+
+theorem initScalars_length (u : α) (n : Nat) (t : Tape α) (xs : List α) (t' : Tape α)
+    (h : initScalars u n t = some (xs, t')) : xs.length = n := by
+  unfold initScalars at h
+  by_cases hc : u < RealLike.ofNat 0 ∨ RealLike.ofNat 0 < u
+  · simp only [hc, if_true, Option.some.injEq, Prod.mk.injEq] at h; rw [← h.1]; simp
+  · simp only [hc, if_false] at h; exact popMany_length _ _ _ _ _ h
+
 end C20L
